@@ -120,4 +120,14 @@ def rule_transition(ctx):
     ctx.obls.extend(sub.obls)
 
 
-RULES = [rule_pre1, rule_pre2, rule_chain, rule_transition]
+def rule_every_symbol_collected(ctx):
+    """the order chain and the symbol declarations are built from Problem::symbols(): a constant that the collectors miss (say, one that only
+    occurs on the left of a comparison) is neither declared nor ordered.  The collectors must reach every place a symbolic term can occur
+    (C09's collector obligations for `symbols`)."""
+    from . import c09
+    sub = type(ctx)(ctx.prop, ctx.tier, ctx.facts)
+    c09.rule_declarations(sub)
+    ctx.obls.extend(o for o in sub.obls if o["key"].startswith("COLLECT:") and ("symbols" in o["key"] or "leaf:symbol" in o["key"]))
+
+
+RULES = [rule_pre1, rule_pre2, rule_chain, rule_transition, rule_every_symbol_collected]
